@@ -63,6 +63,13 @@ ASSUMPTIONS = [
 ]
 
 MAX_PLACEMENTS = 24
+# Reference atoms of mappings ([reference atoms] in .mapping files, unused by
+# the shipped data and not named in the property statement) are generated only
+# on request: with them do_mapping copies *all* requested attributes of the
+# reference atom, including the input resid, over the new particle (see
+# notes/C01.md, side finding).  VERIF_C01_REFERENCES=1 switches them on; the
+# matcher below lets a known_findings entry exclude exactly these cases.
+WITH_REFERENCES = bool(os.environ.get('VERIF_C01_REFERENCES'))
 ELEMENTS = ['C', 'C', 'C', 'C', 'N', 'O', 'S', 'P', 'H', 'H', 'H', 'H']
 WEIGHTS = [2, 3, 0.5, 0.25, 1.5]
 
@@ -151,7 +158,7 @@ def _decode_type(tidx, base, A, B):
             second = (bead + 1 + (code // 48) % (nb - 1)) % nb
             w = [1, 1] if sel == 7 else [WEIGHTS[(code // 144) % 5], 1]
             entry = [[bead, w[0]], [second, w[1]]]
-        elif zero_ok and sel == 9:
+        elif zero_ok and sel in (9, 11):
             entry = [[bead, 0]]
         elif weights_ok and sel == 10:
             entry = [[bead, WEIGHTS[(code // 144) % 5]]]
@@ -176,9 +183,15 @@ def _decode_type(tidx, base, A, B):
         if T[37] % 2 == 0 and len(beads) >= 2:
             other = 0 if pos else 1
             bead_edges.append(sorted([pos, other]))
+    references = []
+    if WITH_REFERENCES and T[39] % 2 == 0:
+        for b in range(len(beads)):
+            mapped_here = [i for i, entry in enumerate(table) if any(bead == b for bead, _ in entry)]
+            if mapped_here and (T[39] // 2 + b) % 2 == 0:
+                references.append([b, mapped_here[(T[39] // 4) % len(mapped_here)]])
     return {'name': 'R%d' % tidx, 'atoms': atoms, 'edges': edges, 'block_element': T[19] % 2 == 0,
             'beads': beads, 'bead_edges': bead_edges, 'interactions': interactions,
-            'map': table, 'has_mapping': T[47] % 16 != 7, 'builder': T[39] % 3 == 0}
+            'map': table, 'has_mapping': T[47] % 16 != 7, 'builder': T[39] % 3 == 0, 'references': references}
 
 
 def _decode_multi(types, M):
@@ -222,11 +235,19 @@ def _decode_extra(types, X):
     taken away from the first mapping and given to the second (no overlap, two
     placements per residue); mode mask: any subset."""
     t = X[0] % len(types)
+    if X[1] % 3 == 0:
+        with_zero = [k for k, cand in enumerate(types) if any(e and all(w == 0 for _, w in e) for e in cand['map'])]
+        if with_zero:
+            t = with_zero[X[0] % len(with_zero)]
     ty = types[t]
     n = len(ty['atoms'])
     mapped = [i for i in range(n) if ty['map'][i]]
     mode = X[1] % 4
-    if mode == 0:
+    zero_only = [i for i in mapped if all(w == 0 for _, w in ty['map'][i])]
+    if X[1] % 3 == 0 and zero_only:
+        # overlaps the first mapping only on atoms that have weight zero there
+        subset = zero_only
+    elif mode == 0:
         subset = mapped
     elif mode in (1, 2) and n >= 2:
         root = 1 + X[2] % (n - 1)
@@ -491,11 +512,14 @@ def build(case):
             for atom, entry in zip(ty['atoms'], ty['map']):
                 for bead, weight in entry:
                     builder.add_mapping({'atomname': atom['name']}, {'atomname': ty['beads'][bead]['name']}, weight)
+            for bead, atom in ty.get('references', []):
+                builder.add_reference({'atomname': ty['beads'][bead]['name']}, {'atomname': ty['atoms'][atom]['name']})
             mapping = builder.get_mapping('block')
         else:
             table = {atom['name']: {ty['beads'][bead]['name']: weight for bead, weight in entry}
                      for atom, entry in zip(ty['atoms'], ty['map']) if entry}
-            mapping = Mapping(aa_blocks[tidx], cg_blocks[tidx], mapping=table, references={},
+            references = {ty['beads'][bead]['name']: ty['atoms'][atom]['name'] for bead, atom in ty.get('references', [])}
+            mapping = Mapping(aa_blocks[tidx], cg_blocks[tidx], mapping=table, references=references,
                               ff_from=ff_aa, ff_to=ff_cg, names=(ty['name'],), extra=(),
                               normalize_weights=normalize)
         mappings[ty['name']] = mapping
@@ -506,7 +530,7 @@ def build(case):
             {i: [tuple(x) for x in entry] for i, entry in enumerate(ty['map'])},
             _spec_beads(ty['beads']), ty['bead_edges'],
             {k: [(tuple(a), p, m) for a, p, m in v] for k, v in ty['interactions'].items()},
-            normalize=normalize))
+            normalize=normalize, references={bead: atom for bead, atom in ty.get('references', [])}))
     if multi is not None:
         t1, t2 = multi['types']
         ty1, ty2 = types[t1], types[t2]
@@ -792,8 +816,9 @@ def _snapshot(mol):
 def _run_toy(case):
     ff_aa, ff_cg, mappings, mol, atoms, bonds, specs = build(case)
     options = case['options']
-    placements = ref.all_placements(atoms, bonds, specs)
-    if len(placements) > MAX_PLACEMENTS:
+    try:
+        placements = ref.all_placements(atoms, bonds, specs, limit=MAX_PLACEMENTS)
+    except ref.TooManyPlacements:
         return Outcome(['skipped-too-many-placements'], False)
     before = _snapshot(mol)
     with capture_logs() as logs:
@@ -861,6 +886,16 @@ def _run_toy(case):
         classes.append('two-residue-not-fitting')
     if facts['overlap']:
         classes.append('overlap')
+        if not facts['clash'] and not facts['split']:
+            classes.append('overlap-only-reason')
+
+            def first_weights(key):
+                for placement in ordered:
+                    if key in placement.atoms:
+                        return [w[key] for w, empty in zip(placement.bead_weights, placement.no_atom) if key in w and not empty]
+                return []
+            if all(all(w == 0 for w in first_weights(key)) for key in pred.overlap_atoms):
+                classes.append('overlap-on-zero-weight-atoms-only-reason')
     if facts['clash']:
         classes.append('attribute-clash')
     if facts['split']:
@@ -904,7 +939,211 @@ def _run_toy(case):
     return Outcome(sorted(set(classes)), nontrivial)
 
 
+# ---------------------------------------------------------------------------
+# part: shipped (real blocks and mappings)
+
+AMINO_ACIDS = ['ALA', 'ARG', 'ASN', 'ASP', 'CYS', 'GLN', 'GLU', 'GLY', 'HIS', 'ILE', 'LEU', 'LYS', 'MET', 'PHE',
+               'PRO', 'SER', 'THR', 'TRP', 'TYR', 'VAL']
+# doc (workflow 3, footnote): "All attributes except a few that are not always defined must match"
+NOT_MATCHED = ('atype', 'charge', 'charge_group', 'mass', 'resid', 'replace', '_old_atomname')
+_REAL = {}
+
+
+def _spec_from_mapping(name, mapping):
+    """Reference description from the *data* of a shipped Mapping object
+    (fragment, weight table, target block); Mapping.map is not used."""
+    bead_index = {bead: i for i, bead in enumerate(mapping.block_to.nodes)}
+    from_nodes = [(node, {k: v for k, v in attrs.items() if k not in NOT_MATCHED}, attrs.get('resid'))
+                  for node, attrs in mapping.block_from.nodes(data=True)]
+    table = {node: [(bead_index[bead], weight) for bead, weight in targets.items()]
+             for node, targets in mapping.mapping.items()}
+    beads = [{'attrs': {k: v for k, v in attrs.items() if k not in ('resid', 'charge_group')},
+              'resid': attrs.get('resid', 1), 'cg': attrs.get('charge_group', 1)}
+             for _, attrs in mapping.block_to.nodes(data=True)]
+    interactions = {}
+    for itype, items in mapping.block_to.interactions.items():
+        if items:
+            interactions[itype] = [(tuple(bead_index[a] for a in item.atoms), list(item.parameters), dict(item.meta))
+                                   for item in items]
+    return ref.MappingSpec(str(name), from_nodes, list(mapping.block_from.edges), table, beads,
+                           [(bead_index[a], bead_index[b]) for a, b in mapping.block_to.edges], interactions)
+
+
+def preload():
+    from pathlib import Path
+    from vermouth.map_input import read_mapping_directory
+    force_fields = vermouth.forcefield.find_force_fields(Path(vermouth.DATA_PATH) / 'force_fields')
+    mappings = read_mapping_directory(Path(vermouth.DATA_PATH) / 'mappings', force_fields)
+    _REAL['ff_aa'] = force_fields['charmm']
+    _REAL['ff_cg'] = force_fields['martini3001']
+    _REAL['mappings'] = mappings
+    _REAL['specs'] = [_spec_from_mapping(name, mapping)
+                      for name, mapping in mappings['charmm']['martini3001'].items() if mapping.type == 'block']
+
+
+@st.composite
+def _shipped_case(draw):
+    head = draw(_ints(0, 9999, 8))
+    n_res = 1 + head[0] % 12
+    R = draw(_ints(0, 9999, 3 * n_res))
+    sequence = [AMINO_ACIDS[R[3 * i] % 20] for i in range(n_res)]
+    if head[1] % 3 == 0 and n_res >= 2:
+        sequence[R[1] % n_res] = 'CYS'
+        sequence[R[2] % n_res] = 'CYS'
+    cys = [i for i, name in enumerate(sequence) if name == 'CYS']
+    disulfide = [cys[0], cys[-1]] if len(cys) >= 2 and head[1] % 3 != 2 else None
+    scheme = head[2] % 4
+    resids = [[i + 1, 10 + 3 * i, 200 - 2 * i, 1 + (i * 7) % 13 + 20 * (i // 13)][scheme] for i in range(n_res)]
+    removed = None
+    if head[3] % 5 == 0:
+        removed = [R[4 % len(R)] % n_res, R[5 % len(R)]]
+    breaks = [i for i in range(1, n_res) if R[3 * i + 1] % 9 == 0]
+    key_scheme = head[4] % 4
+    order = draw(_ints(0, 999999, 30 * n_res)) if key_scheme == 3 else []
+    return {'sequence': sequence, 'resids': resids, 'disulfide': disulfide, 'removed': removed, 'breaks': breaks,
+            'chains': ['A' if R[3 * i + 2] % 4 else 'B' for i in range(n_res)] if head[5] % 3 == 0 else ['A'] * n_res,
+            'key_scheme': key_scheme, 'order': order, 'insertion': head[6] % 3,
+            'via': ['system', 'system', 'function'][head[7] % 3]}
+
+
+def _strategy_shipped(tier):
+    return _shipped_case()
+
+
+def _build_shipped(case):
+    ff_aa = _REAL['ff_aa']
+    flat = []       # (residue index, atom name)
+    edges = []
+    for ridx, name in enumerate(case['sequence']):
+        block = ff_aa.blocks[name]
+        names = list(block.nodes)
+        if case['removed'] is not None and case['removed'][0] == ridx:
+            victim = names[case['removed'][1] % len(names)]
+            names.remove(victim)
+        for atom in names:
+            flat.append((ridx, atom))
+        edges += [((ridx, a), (ridx, b)) for a, b in block.edges if a in names and b in names]
+        if ridx and ridx not in case['breaks'] and 'N' in names and (ridx - 1, 'C') in flat:
+            edges.append(((ridx - 1, 'C'), (ridx, 'N')))
+    if case['disulfide'] is not None:
+        a, b = case['disulfide']
+        if (a, 'SG') in flat and (b, 'SG') in flat:
+            edges.append(((a, 'SG'), (b, 'SG')))
+    n = len(flat)
+    if case['key_scheme'] == 0:
+        keys = list(range(n))
+    elif case['key_scheme'] == 1:
+        keys = [5 + 2 * i for i in range(n)]
+    elif case['key_scheme'] == 2:
+        keys = [None] * n
+        nxt = 0
+        for ridx in reversed(range(len(case['sequence']))):
+            for i, (r, _) in enumerate(flat):
+                if r == ridx:
+                    keys[i] = nxt
+                    nxt += 1
+    else:
+        ranks = sorted(range(n), key=lambda i: (case['order'][i], i))
+        keys = [None] * n
+        for rank, i in enumerate(ranks):
+            keys[i] = 3 * rank + case['order'][i] % 3
+    key_of = dict(zip(flat, keys))
+    mol = Molecule(force_field=ff_aa)
+    atoms = {}
+    entries = list(zip(flat, keys))
+    if case['insertion'] == 1:
+        entries.sort(key=lambda e: e[1])
+    elif case['insertion'] == 2:
+        entries.reverse()
+    res_of = {}
+    for (ridx, atom), key in entries:
+        block_attrs = ff_aa.blocks[case['sequence'][ridx]].nodes[atom]
+        attrs = {'atomname': block_attrs['atomname'], 'resname': case['sequence'][ridx], 'resid': case['resids'][ridx],
+                 'chain': case['chains'][ridx], 'element': block_attrs['atomname'][0], 'atomid': key + 1}
+        mol.add_node(key, **attrs)
+        atoms[key] = dict(attrs)
+        res_of[key] = ridx
+    bonds = set()
+    for a, b in edges:
+        mol.add_edge(key_of[a], key_of[b])
+        bonds.add(frozenset((key_of[a], key_of[b])))
+    return mol, atoms, bonds, res_of
+
+
+def _run_shipped(case):
+    ff_cg = _REAL['ff_cg']
+    mol, atoms, bonds, res_of = _build_shipped(case)
+    keep, must, stash = ('cgsecstruct', 'chain', 'secstruct'), ('resname',), ('resid',)   # as bin/martinize2
+    placements = ref.all_placements(atoms, bonds, _REAL['specs'])
+    before = _snapshot(mol)
+    with capture_logs() as logs:
+        if case['via'] == 'function':
+            out = do_mapping(mol, _REAL['mappings'], ff_cg, attribute_keep=keep, attribute_must=must,
+                             attribute_stash=stash)
+        else:
+            system = System(force_field=mol.force_field)
+            system.add_molecule(mol)
+            DoMapping(_REAL['mappings'], ff_cg, attribute_keep=keep, attribute_must=must,
+                      attribute_stash=stash).run_system(system)
+            out = system.molecules[0] if system.molecules else Molecule(force_field=ff_cg)
+    if _snapshot(mol) != before:
+        raise Violation('input-modified', 'the input molecule was changed by the transformation')
+    groups = ref.tie_groups(placements)
+    ordered, tie = _resolve_order(groups, [out.nodes[k] for k in sorted(out.nodes)])
+    pred = ref.Prediction(atoms, bonds, ordered, keep, must, stash)
+    got_edges = compare(out, pred, ordered, atoms, bonds, logs)
+    facts = check_warnings(logs, pred, got_edges if pred.overlap_atoms else pred.edges())
+    # the generic predicates of the design, stated directly
+    resids = [out.nodes[k]['resid'] for k in sorted(out.nodes)]
+    if resids and (resids[0] != 1 or any(b - a not in (0, 1) for a, b in zip(resids, resids[1:]))):
+        raise Violation('resid', 'output residue numbers are not consecutive: %r' % (resids,))
+    classes = ['residues:%s' % ('1' if len(case['sequence']) == 1 else '2-5' if len(case['sequence']) <= 5 else '6-12')]
+    n_place = len(ordered)
+    first_res = [min(res_of[k] for k in p.atoms) for p in ordered]
+    features = {
+        'nonmonotone-order': first_res != sorted(first_res),
+        'nonadjacent-bond': any(abs(pred.beads[i]['placement'] - pred.beads[j]['placement']) > 1
+                                for i, j in map(tuple, pred.inter_edges)),
+        'shared-atom': any(len(set(v)) > 1 for v in pred.owners.values()),
+        'zero-weight': any(w == 0 for b in pred.beads for w in b['weights'].values()),
+        'disulfide': case['disulfide'] is not None,
+    }
+    for name, flag in features.items():
+        if flag and n_place >= 2:
+            classes.append(name)
+    if pred.uncovered_heavy:
+        classes.append('unmapped-heavy')
+    elif pred.uncovered_hydrogen:
+        classes.append('unmapped-hydrogen-only')
+    else:
+        classes.append('clean')
+    if case['breaks']:
+        classes.append('chain-break')
+    if any(b['choice'].get('_old_resid') != [b['fixed']['resid']] for b in pred.beads):
+        classes.append('old-resid-differs')
+    if facts['split'] or facts['clash'] or facts['overlap']:
+        classes.append('inconsistent-data')
+    nontrivial = n_place >= 2 and any(features[k] for k in ('nonmonotone-order', 'nonadjacent-bond', 'shared-atom', 'zero-weight'))
+    if nontrivial:
+        classes.append('nontrivial')
+    return Outcome(sorted(set(classes)), nontrivial)
+
+
+def _match_reference_atoms(params, part_name, case, violation):
+    return part_name == 'toy' and any(ty.get('references') for ty in case.get('types', []))
+
+
+MATCHERS = {'reference_atoms': _match_reference_atoms}
+
 PARTS = [
     Part('toy', _run_toy, strategy=_strategy_toy, examples={'quick': 2400, 'thorough': 40000},
-         floors={}),
+         floors={'nontrivial': 0.4, 'branch-point': 0.12, 'nonadjacent-bond': 0.2, 'shared-atom': 0.08, 'zero-weight': 0.05,
+                 'no-atom-bead': 0.25, 'nonmonotone-order': 0.15, 'two-residue-placed': 0.05,
+                 'two-residue-to-two-residues': 0.03, 'overlap': 0.12, 'overlap-only-reason': 0.01, 'clean': 0.18,
+                 'clean-multi-placement': 0.1, 'unmapped-heavy': 0.15, 'unmapped-hydrogen-only': 0.08,
+                 'mapping-does-not-fit': 0.04, 'stash-resid': 0.5, 'old-resid-differs': 0.2, 'cross-linked': 0.02,
+                 'residue-split-over-placements': 0.015, 'normalized': 0.08, 'via-system': 0.1}),
+    Part('shipped', _run_shipped, strategy=_strategy_shipped, examples={'quick': 160, 'thorough': 3000},
+         floors={'nontrivial': 0.4, 'shared-atom': 0.05, 'unmapped-heavy': 0.1, 'clean': 0.3, 'nonmonotone-order': 0.1,
+                 'disulfide': 0.05, 'nonadjacent-bond': 0.1}),
 ]
